@@ -265,6 +265,10 @@ class G:
             self.ops.append("next %d" % i)
         elif c < 0.47:
             self.ops.append("nth %d %d" % (i, self.r.choice([0, 1, 1, 2, 3, 7])))
+        elif c < 0.50 and kind != "filter":
+            self.ops.append("nthb %d %d" % (i, self.r.choice([0, 1, 2, 5])))
+        elif c < 0.52:
+            self.ops.append(self.r.choice(["count %d", "last %d"]) % i)
         elif c < 0.75 and kind != "filter":
             self.ops.append("nextb %d" % i)
         elif c < 0.87:
@@ -365,6 +369,10 @@ def iter_scenario(rng, flavor, hid):
         c = rng.random()
         if c < 0.08:
             ops.append("nth 0 %d" % rng.choice([0, 1, 2, 3, w, w + 1]))
+        elif c < 0.11 and kind != "dfilter":
+            ops.append("nthb 0 %d" % rng.choice([0, 1, 2, w]))
+        elif c < 0.13:
+            ops.append(rng.choice(["count 0", "last 0"]))
         elif c < 0.5 or kind == "dfilter":
             ops.append("next 0")
         elif c < 0.9:
@@ -454,7 +462,7 @@ SENTINEL_OPS = ["push 0", "pop 0", "insert 0 0", "insert 0 1", "remove 0 0", "sw
                 "drain 0 0 u u ; next 0 ; nextb 0 ; hint 0 ; dropit 0", "drain 0 0 u u ; nextb 0 ; next 0 ; forget 0", "drain 0 0 i0 e0 ; nextb 0 ; dropit 0",
                 "drain 0 0 i0 e1", "splice 0 0 u u - ; nextb 0 ; next 0 ; dropit 0", "splice 0 0 u u SSS ; next 0 ; nextb 0 ; hint 0 ; dropit 0",
                 "splice 0 0 i0 e0 SS ; dropit 0", "splice 0 0 u u SSSSS ; forget 0", "dfilter 0 0 TF ; next 0 ; hint 0 ; dropit 0", "dfilter 0 0 - ; forget 0",
-                "intoiter 0 0 ; next 0 ; nextb 0 ; hint 0 ; asslice 0 ; cloneit 0 1 ; next 1 ; dropit 1 ; dropit 0", "intoiter 0 0 ; forget 0", "intoiter 0 0 ; nth 0 1 ; nth 0 9 ; dropit 0", "intoiter 0 0 ; nextb 0 ; nth 0 L ; dropit 0", "drain 0 0 u u ; nth 0 1 ; nextb 0 ; nth 0 5 ; dropit 0", "splice 0 0 u u S ; nth 0 2 ; dropit 0", "dfilter 0 0 TFTTF ; nth 0 1 ; dropit 0",
+                "intoiter 0 0 ; next 0 ; nextb 0 ; hint 0 ; asslice 0 ; cloneit 0 1 ; next 1 ; dropit 1 ; dropit 0", "intoiter 0 0 ; forget 0", "intoiter 0 0 ; nth 0 1 ; nth 0 9 ; dropit 0", "intoiter 0 0 ; nthb 0 1 ; count 0 ; dropit 0", "intoiter 0 0 ; next 0 ; last 0 ; dropit 0", "drain 0 0 u u ; nthb 0 0 ; last 0 ; dropit 0", "dfilter 0 0 TFT ; count 0 ; dropit 0", "splice 0 0 u u SS ; count 0 ; dropit 0", "intoiter 0 0 ; nextb 0 ; nth 0 L ; dropit 0", "drain 0 0 u u ; nth 0 1 ; nextb 0 ; nth 0 5 ; dropit 0", "splice 0 0 u u S ; nth 0 2 ; dropit 0", "dfilter 0 0 TFTTF ; nth 0 1 ; dropit 0",
                 "intoiter 0 0 ; cloneit 0 1 ; dropit 0 ; nextb 1 ; asslice 1 ; dropit 1"]
 
 def sentinel_scenario(rng, hid, k=None):
